@@ -18,11 +18,29 @@ COMMON_NOTE = ("Trusted: Lean 4.33.0 kernel, axioms propext/Classical.choice/Quo
                "Go runtime/stdlib semantics are modelled, not verified.")
 
 
-def generic(pid, corrs, extra=None, thorough_extra=None):
+def generic(pid, corrs, extra=None, thorough_extra=None, skel=None, pregen=None):
     """corrs: list of dicts(harness=, area=, name=, gen_args=, run_args=, env=, race=) for steps.TraceCorr.
-    extra(work, res, tier, proofs_ok) -> bool(concrete violation found): property-specific additional steps."""
+    extra(work, res, tier, proofs_ok): property-specific additional steps (record violations on res).
+    skel: list of "file.go[:Type,...]" — sync skeletons regenerated from the current tree into
+          lean/Ekit/Generated/Skel<pid>.lean (namespace Ekit.Gen.Skel<pid>) before the Lean build.
+    pregen(work) -> error string or None: other regeneration from the source (fact tables …)."""
+    def do_pregen(work):
+        errs = []
+        if skel:
+            e = steps.gen_skeletons(work, pid, skel)
+            if e:
+                errs.append(e)
+        if pregen:
+            e = pregen(work)
+            if e:
+                errs.append(e)
+        return errs
+
     def run(work, res, tier):
-        ok = steps.lean_obligations(res, pid)
+        for e in do_pregen(work):
+            res.obligation("regenerate Lean definitions from the current source", False, log=e[-2000:])
+            res.broken_proof = {"obligation": "extractor (source no longer in the translated subset)", "errors": [e[-2000:]]}
+        ok = steps.lean_obligations(res, pid) and not getattr(res, "broken_proof", None)
         concrete = False
         for c in corrs:
             t = steps.TraceCorr(work, res, pid, tier=tier, **c)
@@ -45,6 +63,7 @@ def generic(pid, corrs, extra=None, thorough_extra=None):
                               concrete=False)
             if thorough_extra:
                 thorough_extra(work, res)
+    run.pregen = do_pregen
     return run
 
 
